@@ -65,6 +65,34 @@ pub fn shim_unimplemented<T>() -> (r: T)
     ensures false,
 { unimplemented!() }
 
+// ---- the character-data factories of DocumentMut ----
+pub uninterp spec fn lexically_valid(kind: int, data: Seq<char>) -> bool;   // what info::Xml{Text,Comment,CData}::insert accepts (units/c16_chardata.py)
+pub struct Ctx { pub h: usize }
+pub struct TextItem { pub kind: Ghost<int> }
+impl TextItem {
+    // info::XmlText / XmlComment / XmlCData ::insert(0, data) on an EMPTY item: Ok exactly when the data is lexically valid
+    // for that kind of item (no `<` / `&` / `]]>` in text, no `--` or trailing `-` in a comment, no `]]>` in a CDATA section)
+    #[verifier::external_body]
+    pub fn insert(&mut self, offset: usize, data: &str) -> (r: core::result::Result<(), error::Error>)
+        ensures r is Ok <==> lexically_valid(old(self).kind@, data@),
+    { unimplemented!() }
+}
+#[verifier::external_body]
+pub fn shim_empty_item(ctx: &Ctx, kind: Ghost<int>) -> (r: TextItem) ensures r.kind@ == kind@ { unimplemented!() }
+pub struct DocInner { pub ctx: Ctx }
+impl DocInner { pub fn context(&self) -> (r: &Ctx) { &self.ctx } }
+pub struct XmlDocumentM { pub document: DocInner }
+pub struct XmlTextM { pub data: TextItem }
+pub struct XmlCommentM { pub data: TextItem }
+pub struct XmlCDataSectionM { pub data: TextItem }
+impl XmlDocumentM {
+    //@@ create_text_node
+
+    //@@ create_comment
+
+    //@@ create_cdata_section
+}
+
 pub struct __Conv {}
 impl __Conv {
     //@@ to_item
@@ -73,6 +101,7 @@ impl __Conv {
 }
 
 } // verus!
+impl std::fmt::Debug for error::Error { fn fmt(&self, f: &mut std::fmt::Formatter<'_>) -> std::fmt::Result { write!(f, "Error") } }
 fn main() {}
 '''
 
@@ -110,6 +139,16 @@ def build():
                Rule('R48', r'Xml\w+::from\(v\.clone\(\)\)\.as_node\(\)', 'shim_node(v)', 'wrapper construction -> shim'),
                R_UNIMPL],
         requires=[('no_caller_hands_over_an_attribute_list_declaration', '!(value is DeclarationAttList)')])
+    for (key, fname, wrapper, empty, conv, kind) in (('create_text_node', 'create_text_node', 'XmlText', 'XmlText', 'as_text', 0), ('create_comment', 'create_comment', 'XmlComment', 'XmlComment', 'as_comment', 1),
+                                                     ('create_cdata_section', 'create_cdata_section', 'XmlCDataSection', 'XmlCData', 'as_cdata', 2)):
+        var = {'create_text_node': 'text', 'create_comment': 'comment', 'create_cdata_section': 'cdata'}[key]
+        fns[key] = Fn(
+            FD, 'impl DocumentMut for XmlDocument', fname, props=P, safety_props=P, label=f'dom::XmlDocument::{fname}',
+            sig_rules=[Rule('R11', r'-> ' + wrapper, '-> ' + wrapper + 'M', 'wrapper type of the model'), Rule('R12', r'^fn ', 'pub fn ', 'visibility')],
+            rules=[Rule('R48', r'let ' + var + r' = info::' + empty + r'::empty\(self\.document\.borrow\(\)\.context\(\)\);', f'let {var} = shim_empty_item(self.document.context(), Ghost({kind}));', 'a fresh empty item of that kind -> shim'),
+                   Rule('R48', r'let ' + var + r' = ' + var + r'\.' + conv + r'\(\)\.unwrap\(\);', f'let mut {var} = {var};', 'the item handed out by the factory is of that kind: conversion + unwrap read as the identity'),
+                   Rule('R11', var + r'\.borrow_mut\(\)\.insert', var + '.insert', 'RefCell borrow dropped (A4)'),
+                   Rule('R11', wrapper + r' \{ data: ' + var + r' \}', wrapper + 'M { data: ' + var + ' }', 'wrapper type of the model')])
     return ENV, fns
 
 
